@@ -283,6 +283,11 @@ def main():
                     continue
                 jobs.append((bname, "truncate", "truncated to %d bytes" % ln, bytes(img[:ln]), cr.tier))
                 counts["truncate"] = counts.get("truncate", 0) + 1
+        if not quick:
+            # breadth before depth: every single-field variant first with the quick tier's per-variant work (all tools, API histories of depth 1 + warm pairs),
+            # so that a deadline in the deep pass below never leaves a field variant of a later base image untouched
+            jobs = [j[:4] + ("quick",) for j in jobs if j[1] == "field"] + jobs
+            counts["field (breadth pass)"] = sum(1 for j in jobs if j[4] == "quick")
         cr.coverage["planned_variants"] = len(jobs)
         cr.coverage["variants_by_kind"] = counts
         n_eval = 0
@@ -292,7 +297,7 @@ def main():
         chunk = 1500
         for off in range(0, len(jobs), chunk):
             if cr.time_left() < 30:
-                cr.cap("deadline after %d of %d variants (order: fields, pairs, bytes, truncations)" % (off, len(jobs)))
+                cr.cap("deadline after %d of %d variant runs (order: breadth pass over all field variants, then deep pass: fields, pairs, bytes, truncations)" % (off, len(jobs)))
                 break
             for bname, kind, desc, found, data, ot in pmap(evaluate, jobs[off:off + chunk]):
                 n_eval += 1
